@@ -9,7 +9,9 @@ package c17
 import (
 	"encoding/base64"
 	"fmt"
+	"os"
 	"strings"
+	"time"
 
 	"verif/harness/facet"
 	"verif/harness/spec"
@@ -270,6 +272,8 @@ func classify(c *facet.Ctx, in Input, data []byte, r Resp, needChanged bool) {
 	}
 }
 
+var debugSlow = os.Getenv("VERIF_C17_DEBUGSLOW") != ""
+
 // check is the Check function of every facet.
 func check(needChanged bool) func(c *facet.Ctx, in Input) error {
 	return func(c *facet.Ctx, in Input) error {
@@ -284,7 +288,11 @@ func check(needChanged bool) func(c *facet.Ctx, in Input) error {
 			c.Skip() // excluded by DESIGN.md 3.3
 			return nil
 		}
+		t0 := time.Now()
 		r := Call(Req{Dec: in.Decoder, Type: in.Type, Data: data})
+		if debugSlow && time.Since(t0) > 200*time.Millisecond {
+			fmt.Fprintf(os.Stderr, "SLOW %v %s len=%d ops=%v alloc=%d outcome=%s\n", time.Since(t0), in.Decoder, len(data), in.Ops, r.Alloc, r.Outcome)
+		}
 		if f := Evaluate(in, data, r); f != nil {
 			return f
 		}
